@@ -152,6 +152,72 @@ def case_constants(p):
     return out
 
 
+def case_interleaved(p):
+    """Two exchanges in flight in one process (two accessories being paired at once): every interleaving of the two clients' step sequences
+    (create / set salt / set B / proof / verify M2 / session key), each client compared with the reference for ITS exchange.  State shared
+    between instances shows here and nowhere else."""
+    import itertools
+
+    from aiohomekit.crypto import srp as lib
+
+    case_interleaved._i = 0
+    exs = []
+    for e in p["exchanges"]:
+        exs.append((e, srp.Exchange(G, USER, e["code"], bytes(e["salt"]), int(e["a"], 16), int(e["b"], 16))))
+    STEPS = ("new", "salt", "B", "proof", "verify", "key")
+    out = []
+    n = 0
+    for mask in itertools.combinations(range(2 * len(STEPS)), len(STEPS)):
+        order = [0 if i in mask else 1 for i in range(2 * len(STEPS))]
+        if order[0] == 1:
+            continue  # symmetric: client 0 always moves first
+        idx = getattr(case_interleaved, "_i", 0)
+        case_interleaved._i = idx + 1
+        if p.get("part") and idx % p["part"][1] != p["part"][0]:
+            continue
+        n += 1
+        pos = [0, 0]
+        cl = [None, None]
+        res = [{}, {}]
+        try:
+            for who in order:
+                e, ex = exs[who]
+                step = STEPS[pos[who]]
+                pos[who] += 1
+                if step == "new":
+                    orig = lib.Srp.generate_private_key
+                    lib.Srp.generate_private_key = staticmethod(lambda a=int(e["a"], 16): a)
+                    try:
+                        cl[who] = lib.SrpClient(USER, e["code"])
+                    finally:
+                        lib.Srp.generate_private_key = orig
+                elif step == "salt":
+                    cl[who].set_salt(bytearray(bytes(e["salt"])))
+                elif step == "B":
+                    cl[who].set_server_public_key(bytearray(ex.B_pad))
+                elif step == "proof":
+                    res[who]["A"] = bytes(cl[who].get_public_key_bytes())
+                    res[who]["M1"] = bytes(cl[who].get_proof_bytes())
+                elif step == "verify":
+                    res[who]["ok"] = cl[who].verify_servers_proof_bytes(ex.M2_server)
+                elif step == "key":
+                    res[who]["K"] = bytes(cl[who].get_session_key_bytes())
+        except Exception as e_:  # noqa: BLE001
+            out.append((f"interleaved:client-raises:{type(e_).__name__}", {"order": order, "err": str(e_)[:120]}))
+            break
+        for who in (0, 1):
+            ex = exs[who][1]
+            r = res[who]
+            bad = [k for k, want in (("A", ex.A_pad), ("M1", ex.M1_client), ("K", ex.K_client), ("ok", True)) if r.get(k) != want]
+            if bad:
+                out.append(("interleaved:exchange-disturbed-by-another-exchange-in-the-same-process", {"order": order, "client": who, "differs": bad}))
+                break
+        if out:
+            break
+    p["_n"] = n
+    return out
+
+
 def case_protocol(p):
     """The *use* of the SRP values in pair-setup (K into HKDF, proofs into M3/M4): one honest M1..M6 run of the real generators on a mined
     exchange against the reference accessory (c03's case), in both decode styles; K, S, ... enter the protocol as bytes and an int round
@@ -165,13 +231,15 @@ def case_protocol(p):
     return [("protocol:" + sig, det) for sig, det in v]
 
 
-CASES = {"exchange": case_exchange, "wrongcode": case_wrongcode, "constants": case_constants, "protocol": case_protocol}
+CASES = {"exchange": case_exchange, "wrongcode": case_wrongcode, "constants": case_constants, "protocol": case_protocol, "interleaved": case_interleaved}
 
 
 def _work(item, seed, tier):
     acc = core.Acc()
     name, p = item
     v = CASES[name](p)
+    if name == "interleaved":
+        acc.extra["interleavings_of_two_exchanges"] += p.pop("_n", 0)
     sym = [name] + ([f"lead0:{p['target']}"] if p.get("target") else []) + (["flips"] if p.get("flips") else [])
     acc.case(key=(name, core.jsonable(p)), outcome=f"{name}:{'ok' if not v else v[0][0]}", sample={"case": name, "params": p}, symbols=sym)
     if name == "exchange" and p.get("flips"):
@@ -199,6 +267,11 @@ def run(ctx):
             work.append(("protocol", {"target": m["target"], "code": m["code"], "a": m["a"], "style": style}))
             if not quick:
                 work.append(("protocol", {"target": m["target"], "code": m["code"], "a": m["a"], "style": style, "fault": "m4-proof-bitflip", "arg": 7}))
+    pairs = [(mined[0], mined[-1]), (mined[3], mined[3])] + ([] if quick else [(mined[i], mined[i + 7]) for i in range(0, 8)])
+    for x, y in pairs:
+        mk = lambda m: {"code": m["code"], "salt": bytes.fromhex(m["salt"]), "a": m["a"], "b": m["b"]}  # noqa: E731
+        for k in range(12):
+            work.append(("interleaved", {"exchanges": [mk(x), mk(y)], "part": [k, 12]}))
     codes = ["000-00-000", "111-22-333", "999-99-999", "031-45-154"] + [
         f"{int.from_bytes(det_bytes(seed, f'code{i}', 4), 'big') % 10**8:08d}" for i in range(2 if quick else 8)
     ]
